@@ -237,6 +237,60 @@ pub fn run() {
                     let _ = kk.update_current_secure_channel_state(unhex_str(state)).await;
                     "ok".into()
                 }
+                ["sign", what, ip, port] => {
+                    // the agent's own signed host calls, through the real clients
+                    let port: u16 = port.parse().unwrap();
+                    let r = match *what {
+                        "goalstate" => crate::host_clients::wire_server_client::WireServerClient::new(ip, port, kk.clone())
+                            .get_goalstate().await.map(|_| ()).map_err(|e| e.to_string()),
+                        "sharedconfig" => crate::host_clients::wire_server_client::WireServerClient::new(ip, port, kk.clone())
+                            .get_shared_config(format!("http://{}:{}/machine/x?comp=config&type=sharedConfig&incarnation=1", ip, port))
+                            .await.map(|_| ()).map_err(|e| e.to_string()),
+                        "imds" => crate::host_clients::imds_client::ImdsClient::new(ip, port, kk.clone())
+                            .get_imds_instance_info().await.map(|_| ()).map_err(|e| e.to_string()),
+                        _ => Err("bad".to_string()),
+                    };
+                    match r { Ok(()) => "ok".into(), Err(e) => format!("err:{}", hex(e.as_bytes())) }
+                }
+                ["khook", nth, guid, key] => {
+                    // on the n-th GetKey message handled by the key-keeper actor from now on: latch another key
+                    // (sent from another task while the actor is held for a moment, so that it is queued before the signer's next read)
+                    let nth: usize = nth.parse().unwrap();
+                    let json = format!(
+                        "{{\"authorizationScheme\":\"Azure-HMAC-SHA256\",\"guid\":\"{}\",\"issued\":\"2024-01-01T00:00:00Z\",\"key\":\"{}\"}}",
+                        unhex_str(guid), unhex_str(key));
+                    let clear = *guid == "-";
+                    let kk2 = kk.clone();
+                    let handle = tokio::runtime::Handle::current();
+                    let mut seen = 0usize;
+                    crate::shared_state::verif_actor::set_hook(Some(Box::new(move |actor, kind| {
+                        if actor == "key_keeper" && kind == "GetKey" {
+                            seen += 1;
+                            if seen == nth {
+                                let kk3 = kk2.clone();
+                                let json = json.clone();
+                                handle.spawn(async move {
+                                    if clear {
+                                        let _ = kk3.clear_key().await;
+                                    } else if let Ok(k) = serde_json::from_str::<Key>(&json) {
+                                        let _ = kk3.update_key(k).await;
+                                    }
+                                });
+                                std::thread::sleep(std::time::Duration::from_millis(40));
+                            }
+                        }
+                    })));
+                    "ok".into()
+                }
+                ["khook", "off"] => {
+                    crate::shared_state::verif_actor::set_hook(None);
+                    "ok".into()
+                }
+                ["ktrace"] => {
+                    let tr = crate::shared_state::verif_actor::take_trace();
+                    let v: Vec<String> = tr.iter().filter(|(a, _)| *a == "key_keeper").map(|(_, k)| k.to_string()).collect();
+                    if v.is_empty() { "-".into() } else { v.join(",") }
+                }
                 ["now"] => proxy_agent_shared::misc_helpers::get_date_time_unix_nano().to_string(),
                 ["quit"] => {
                     out.line("bye");
